@@ -226,6 +226,12 @@ func (x *Exec) mutexOp(st *State, recv *Value, lock bool, at *ast.CallExpr) {
 		}
 	}
 	key := "ghost.mutexHeld"
+	if _, seen := st.heap[key]; !seen {
+		// mutexes other than the store lock: assumed free when the function
+		// under verification starts (callers do not hold them)
+		arr0 := x.heapArr(st, key, BoolSort)
+		x.assume(st, x.b.Forall([]*Term{x.b.Var("q!mx", RefSort)}, x.b.Not(x.b.Select(arr0, x.b.Var("q!mx", RefSort)))))
+	}
 	arr := x.heapArr(st, key, BoolSort)
 	held := x.b.Select(arr, ref)
 	if lock {
